@@ -34,5 +34,6 @@ run "$PWD/seeded/real/F13-revert.diff" "F13 revert" C11
 run "$PWD/seeded/real/F14-revert.diff" "F14 revert" C12
 run "$PWD/seeded/real/F16-revert.diff" "F16 revert" C01
 run "$PWD/seeded/real/F17-revert.diff" "F17 revert" C04 C16
+run "$PWD/seeded/real/F18-revert.diff" "F18 revert" C17
 git -C /repo status --short
 echo "matrix done"
